@@ -1,9 +1,11 @@
 package scen
 
 import (
+	"bytes"
 	"context"
 	"encoding/json"
 	"fmt"
+	"io"
 	"os"
 	"sort"
 	"strings"
@@ -22,6 +24,21 @@ type CancelSrv struct {
 	mu   sync.Mutex
 	ctxs map[string]context.Context
 	retd map[string]bool
+	runs map[string]int
+	// batch probes: the context state each element's handler saw
+	probe map[string]string
+}
+
+// Probe reports what its context looks like while it runs (HTTP batch elements must not
+// see each other's cancellation).
+func (h *CancelSrv) Probe(ctx context.Context, name string) (string, error) {
+	e1 := ctx.Err()
+	h.s.Yield("probe-" + name)
+	e2 := ctx.Err()
+	h.mu.Lock()
+	h.probe[name] = fmt.Sprintf("%v/%v", e1, e2)
+	h.mu.Unlock()
+	return name, nil
 }
 
 func (h *CancelSrv) rec(name string, ctx context.Context) {
@@ -31,6 +48,9 @@ func (h *CancelSrv) rec(name string, ctx context.Context) {
 }
 
 func (h *CancelSrv) Hold(ctx context.Context, name string) (string, error) {
+	h.mu.Lock()
+	h.runs[name]++
+	h.mu.Unlock()
 	h.rec(name, ctx)
 	h.s.Env("release-" + name)
 	h.mu.Lock()
@@ -65,6 +85,7 @@ type CancelCli struct {
 func init() {
 	Register(&Scenario{
 		Name:     "cancel",
+		LazyToo:  true,
 		DescToo:  true,
 		Property: "C06",
 		Cfg:      vsched.Config{Horizon: 10 * time.Second},
@@ -72,6 +93,14 @@ func init() {
 			var ps []Param
 			add := func(set string, ws, bound int) {
 				ps = append(ps, Param{Name: fmt.Sprintf("%s-ws%d", set, ws), Bound: bound, V: map[string]int{"ws": ws}, S: map[string]string{"set": set}})
+			}
+			if os.Getenv("VPROP") == "C04" {
+				b := 1
+				if tier == "thorough" {
+					b = 2
+				}
+				add("X", 1, b)
+				return ps
 			}
 			if os.Getenv("VPROP") == "C02" {
 				// C02 only needs "a call cancelled while in flight still gets its own response"
@@ -108,7 +137,7 @@ func cancelBody(s *vsched.Sched, p Param) {
 	set := p.Str("set")
 	ws := p.I("ws") == 1
 	w := NewWorld(s, jsonrpc.WithServerPingInterval(0))
-	srv := &CancelSrv{s: s, ctxs: map[string]context.Context{}, retd: map[string]bool{}}
+	srv := &CancelSrv{s: s, ctxs: map[string]context.Context{}, retd: map[string]bool{}, runs: map[string]int{}, probe: map[string]string{}}
 	w.RPC.Register("T", srv)
 	w.RPC.AliasMethod("alias.sub", "T.Sub")
 	w.Serve()
@@ -249,6 +278,20 @@ func cancelBody(s *vsched.Sched, p Param) {
 			}
 		}
 		for _, n := range names {
+			if v, ok := obs.Get("ret-" + n); ok && n != "Z" && n != "W" {
+				// a result or a handler-level error (application code >= 1) means the handler ran
+				srv.mu.Lock()
+				runs := srv.runs[n]
+				srv.mu.Unlock()
+				if (strings.HasSuffix(v, "/<nil>") || strings.Contains(v, "JSONRPCError(1)")) && runs != 1 {
+					s.Violate("C04: call %s was answered with %s although its handler executed %d times", n, v, runs)
+				}
+				if runs > 1 {
+					s.Violate("C04: the handler of call %s executed %d times", n, runs)
+				}
+			}
+		}
+		for _, n := range names {
 			if v, ok := obs.Get("ret-" + n); !ok {
 				s.Violate("C06: call %s never returned; alive: %s", n, strings.Join(s.Alive(), " "))
 			} else if !inSet(n) && n != "Z" && n != "W" && v != n+"/<nil>" {
@@ -313,4 +356,56 @@ func keys(m map[string]bool) []string {
 	}
 	sort.Strings(k)
 	return k
+}
+
+// S-BATCHCTX: the elements of one HTTP batch run one after the other on the request's
+// context; none of them may see a cancelled context just because an earlier element finished.
+func init() {
+	Register(&Scenario{
+		Name:     "batchctx",
+		Property: "C06",
+		Cfg:      vsched.Config{Horizon: 5 * time.Second},
+		Params: func(tier string) []Param {
+			return []Param{{Name: "http-batch3", Bound: 1}, {Name: "handle-request-batch3", Bound: 0, V: map[string]int{"direct": 1}}}
+		},
+		Body: func(s *vsched.Sched, p Param) {
+			w := NewWorld(s)
+			srv := &CancelSrv{s: s, ctxs: map[string]context.Context{}, retd: map[string]bool{}, runs: map[string]int{}, probe: map[string]string{}}
+			w.RPC.Register("T", srv)
+			w.Serve()
+			obs := NewObs()
+			s.Teardown = w.Teardown
+			s.Finish = func() {
+				srv.mu.Lock()
+				defer srv.mu.Unlock()
+				for _, n := range []string{"a", "b", "c"} {
+					if got := srv.probe[n]; got != "<nil>/<nil>" {
+						s.Violate("C06: element %q of an HTTP batch saw its handler context as %s although nobody cancelled (want <nil>/<nil>)", n, got)
+					}
+				}
+				if v, _ := obs.Get("reply"); !strings.Contains(v, `"result":"c"`) {
+					s.Violate("C06: batch reply incomplete: %s", v)
+				}
+				s.SetObs(obs.String())
+			}
+			s.Begin()
+			s.Go("poster", func() {
+				body := `[{"jsonrpc":"2.0","id":1,"method":"T.Probe","params":["a"]},{"jsonrpc":"2.0","id":2,"method":"T.Probe","params":["b"]},{"jsonrpc":"2.0","id":3,"method":"T.Probe","params":["c"]}]`
+				if p.I("direct") == 1 {
+					var buf bytes.Buffer
+					w.RPC.HandleRequest(context.Background(), strings.NewReader(body), &buf)
+					obs.Set("reply", "%s", buf.String())
+					return
+				}
+				resp, err := w.HC.Post("http://"+Addr+"/rpc", "application/json", strings.NewReader(body))
+				if err != nil {
+					obs.Set("reply", "post failed: %v", err)
+					return
+				}
+				defer resp.Body.Close()
+				raw, _ := io.ReadAll(resp.Body)
+				obs.Set("reply", "%s", raw)
+			})
+		},
+	})
 }
